@@ -103,3 +103,21 @@ package accounts
 //@   option prelude=auth
 //@   requires nonnil: ce != nil
 //@   ensures decides: (result == nil) <==> casbinAllows(ce.encforcer, AStr(user), AStr(graph), AStr(operation))
+
+// Basic authentication: a caller is authenticated only as a configured user, and only
+// with that user's configured password (the credentials are the ones parseBasicAuth reads
+// from the first Authorization header).
+//@ func (BasicAuth).Validate
+//@   property C05
+//@   option prelude=auth
+//@   let hdr = ite(has(md, "Authorization"), md["Authorization"][0], md["authorization"][0])
+//@   loop 1 invariant bound: rangeindex < len(ba)
+//@   ensures configured: result.1 == nil ==> (exists i :: 0 <= i && i < len(ba) && ba[i].User == result.0)
+//@   ensures password: result.1 == nil ==> result.0 == bauser(hdr) &&
+//@       (exists i :: 0 <= i && i < len(ba) && ba[i].User == bauser(hdr) && ba[i].Password == bapass(hdr))
+
+//@ func parseBasicAuth
+//@   property C05
+//@   option prelude=auth
+//@   pure
+//@   function parsed: result.0 == bauser(auth) && result.1 == bapass(auth) && (result.2 <==> baok(auth))
